@@ -7,3 +7,16 @@ pub use super::TimeSnapshot;
 pub fn root_dispersion_fn(s: &TimeSnapshot, now: NtpTimestamp) -> NtpDuration {
     s.root_dispersion(now)
 }
+
+// ---------------------------------------------------------------- C33 manager identity (lead)
+/// the id the daemon advertises (goes into the Bloom filter it publishes)
+pub fn manager_server_id(m: &NtpManager) -> ServerId {
+    m.server_id
+}
+/// the id the sources created by this manager test Bloom filters against
+pub fn manager_source_info_server_id(m: &NtpManager) -> ServerId {
+    m.source_info.read().unwrap().server_id
+}
+pub fn manager_source_info_local_stratum(m: &NtpManager) -> u8 {
+    m.source_info.read().unwrap().local_stratum
+}
